@@ -43,6 +43,11 @@ var CorpusHand = []RouteSet{
 	fanout(),
 	rs("siblings-3", "GET", "/s/b", "/s/d", "/s/f", "/s"),
 	rs("leaf-one-child-wild", "GET", "/a", "/a/b", "/a/{x}", "/c", "/c/d", "/c/*{w}", "/e", "/e/f{y}/g"),
+	rs("two-hosts-only", "GET", "a.b/", "c.d/y", "c.d/z"),
+	// indices 1 and 7 (resp. 0 and 6) share a method in every harness that spreads routes over methods (i%2, i%3);
+	// 1 and 7 are routes that do not ignore trailing slashes in C11
+	rs("host-overlap-tsr", "GET", "/z", "b/x/", "/w", "/v", "b/y", "/u", "/t", "{h}/x"),
+	rs("param-wild-siblings", "GET", "/fs/{f}", "/q", "/r/", "/s", "/t", "/u", "/fs/*{p}"),
 }
 
 // fanout has 60 sibling first bytes under "/" (the 50-child linear/binary search switch).
